@@ -69,7 +69,19 @@ def _facts(atom: ast.expr, outcome: bool, sub=src) -> list[str]:
         return facts(atom.args[0], outcome, sub)
     if isinstance(atom, ast.Call) and isinstance(atom.func, ast.Name) and atom.func.id == "len" and len(atom.args) == 1:
         return [("nonempty(" if outcome else "empty(") + sub(atom.args[0]) + ")"]
+    if isinstance(atom, ast.Call) and isinstance(atom.func, ast.Attribute) and atom.func.attr in SYMMETRIC_METHODS and len(atom.args) == 1 and not atom.keywords:
+        # `a.eq(b)` and `b.eq(a)` are one fact: the operands in a fixed order
+        a, b = sub(atom.func.value), sub(atom.args[0])
+        if b < a:
+            a, b = b, a
+        return [("truthy(" if outcome else "falsy(") + f"{a}.{atom.func.attr}({b})" + ")"]
     return [("truthy(" if outcome else "falsy(") + sub(atom) + ")"]
+
+
+# methods whose answer does not depend on which operand is the receiver (audited: Node / Mark /
+# Fragment `eq`, `same_markup`, NodeType.compatible_content = equal type or a shared first child type,
+# ContentMatch.compatible)
+SYMMETRIC_METHODS = {"eq", "same_markup", "compatible_content", "compatible"}
 
 
 def fact_set(guards: Iterable[tuple[ast.expr, bool]], sub=src) -> set[str]:
@@ -210,6 +222,22 @@ class Resolver:
                     if not used_before:
                         self.defs[nm] = val
                         self.selfdefs.add(nm)
+        # `self.x = E` assigned exactly once in a method (not a constructor): a later read of `self.x`
+        # in the same method is E (no call in between can be seen to change it - same caveat as for locals)
+        self.attrdefs: dict[str, tuple[int, ast.expr]] = {}
+        if isinstance(fn, (ast.FunctionDef, ast.AsyncFunctionDef)) and fn.name != "__init__":
+            stores: dict[str, list] = {}
+            for n in walk_own(fn):
+                if isinstance(n, (ast.Assign, ast.AugAssign, ast.AnnAssign)):
+                    tg = n.targets if isinstance(n, ast.Assign) else [n.target]
+                    for t in tg:
+                        for x in ast.walk(t):
+                            if isinstance(x, ast.Attribute) and isinstance(x.value, ast.Name) and x.value.id == "self" and isinstance(x.ctx, ast.Store):
+                                stores.setdefault(x.attr, []).append(n)
+            for attr, ns in stores.items():
+                n0 = ns[0]
+                if len(ns) == 1 and isinstance(n0, ast.Assign) and len(n0.targets) == 1 and isinstance(n0.targets[0], ast.Attribute) and not any(isinstance(y, ast.Attribute) and isinstance(y.value, ast.Name) and y.value.id == "self" and y.attr == attr for y in ast.walk(n0.value)):
+                    self.attrdefs[attr] = (n0.lineno, n0.value)
         self.depth = depth
 
     def expr(self, e: ast.expr, depth: int | None = None, _skip: frozenset = frozenset()) -> ast.expr:
@@ -228,10 +256,26 @@ class Resolver:
                     return outer.expr(clone(defs[node.id]), depth - 1, sk)
                 return node
 
+            def visit_Attribute(self, node: ast.Attribute) -> ast.AST:
+                if isinstance(node.ctx, ast.Load) and isinstance(node.value, ast.Name) and node.value.id == "self" and node.attr in outer.attrdefs:
+                    line, val = outer.attrdefs[node.attr]
+                    if getattr(node, "_orig_lineno", getattr(node, "lineno", 0)) > line and getattr(node, "_in_fn", False):
+                        return outer.expr(clone(val), depth - 1, _skip)
+                self.generic_visit(node)
+                return node
+
             def visit_Lambda(self, node: ast.Lambda) -> ast.AST:
                 return node
 
-        return T().visit(clone(e))
+        # reads of `self.x` are only replaced in expressions that belong to the function itself
+        own = any(getattr(x, "_parent", None) is not None for x in [e])
+        c = clone(e)
+        if own and outer.attrdefs:
+            for a, b in zip(ast.walk(e), ast.walk(c)):
+                if isinstance(b, ast.Attribute):
+                    b._in_fn = True  # type: ignore[attr-defined]
+                    b._orig_lineno = getattr(a, "lineno", 0)  # type: ignore[attr-defined]
+        return T().visit(c)
 
     def src(self, e: ast.expr) -> str:
         return src(self.expr(e))
